@@ -150,7 +150,10 @@ impl BlobFile {
         frag_map.get(&self.id()).is_some_and(|x| {
             let stale_bytes = x.bytes;
             let all_bytes = self.0.meta.total_uncompressed_bytes;
-            stale_bytes == all_bytes
+
+            // NOTE: Blobs may be empty (separation threshold 0), so the byte counts alone
+            // cannot tell whether *every* blob is unreferenced
+            stale_bytes == all_bytes && (x.len as u64) == self.0.meta.item_count
         })
     }
 }
